@@ -16,6 +16,8 @@ RES_STRS = ("zz", "bad")
 
 _CLASSES = {}
 _NODE = [None]
+import itertools  # noqa: E402
+_SERIAL = itertools.count(1000)
 
 
 # --------------------------------------------------------------------- tokens
@@ -111,10 +113,13 @@ def parse_decl(s, pool):
     tk = Toks(s)
     name, kind, tr, cp = tk.next(), tk.next(), tk.next(), tk.next()
     sh = parse_shape(tk)
-    dv = parse_val(tk, pool)
+    dyn = tk.t[tk.i:] == ["q"]
+    dv = 0 if dyn else parse_val(tk, pool)
+    if dyn:
+        tk.next()
     assert tk.done(), s
     return {"name": name, "kind": kind, "transient": tr == "1", "copy": {"-": None, "r": "ref", "s": "shallow",
-            "d": "deep"}[cp], "shape": sh, "default": dv}
+            "d": "deep"}[cp], "shape": sh, "default": dv, "dyn": dyn}
 
 
 # --------------------------------------------------------------------- traits
@@ -172,7 +177,10 @@ def build_class(decl_str, decls):
         if d["kind"] in ("v", "p"):
             md["copy"] = d["copy"]  # always explicit: List/Set/Instance would default to "deep", Dict to nothing
         n = d["name"]
-        if d["kind"] == "v":
+        if d["kind"] == "v" and d.get("dyn"):
+            ns[n] = trait_of(d["shape"], None, **md)
+            ns["_%s_default" % n] = lambda self: next(_SERIAL)   # non-reproducible: a serial number
+        elif d["kind"] == "v":
             ns[n] = trait_of(d["shape"], d["default"], **md)
         elif d["kind"] == "r":
             ns[n] = ReadOnly(**md) if md else ReadOnly
@@ -529,6 +537,19 @@ def run_p(case):
         v = getattr(cur, d["name"])
         vals.append((d, v))
     for d, v in vals:
+        if d.get("dyn"):
+            # what the predecessor reads NOW (afterwards): __getstate__ / copy_traits read the original, which
+            # computes a pending default once and keeps it, so both must report the same value
+            if src is None:
+                shown.append(d["name"] + "=Q")
+            else:
+                pv = getattr(src, d["name"])
+                shown.append(d["name"] + ("=Q=" if pv == v else "=Q!"))
+                if pv != v and not d["transient"]:
+                    hits.append({"signature": "dynamic-default-differs:" + last_sig,
+                                 "what": "%s has a non-reproducible default that nobody had read: after %s the copy "
+                                         "reads %r, the original %r" % (d["name"], last_sig, v, pv)})
+            continue
         shown.append(d["name"] + "=" + show_val(v, cur, old, eobjs))
     for d, v in vals:
         nodes = []
@@ -594,6 +615,8 @@ def run_p(case):
                 srcflag = "d"
             eff = d["copy"] or {"clone-ref": "ref", "clone-shallow": "shallow", "clone-deep": "deep",
                                 "deepcopy": "deep", "copy": "copy", "pickle": "pickle"}[last_sig]
+            if d["transient"] and d.get("dyn"):
+                continue    # back at its default = computed afresh on the copy: any value is right
             if d["transient"]:
                 dv = d["default"]
                 if d["kind"] == "r":
@@ -735,7 +758,7 @@ MENU = [
     ("la", "v", ("L", 0, 9, ("A",))), ("d", "v", ("D", 1, ("L", 0, 9, I))), ("di", "v", ("D", 1, I)),
     ("dc", "v", ("D", 2, S)), ("dd", "v", ("D", 1, ("D", 0, I))), ("st", "v", ("S", 0)), ("ss", "v", ("S", 1)),
     ("ls", "v", ("L", 0, 9, ("S", 0))), ("n", "v", N), ("ln", "v", ("L", 0, 9, N)), ("dn", "v", ("D", 1, N)),
-    ("r", "r", ("A",)), ("e", "e", I), ("p", "p", I), ("pc", "p", C),
+    ("r", "r", ("A",)), ("e", "e", I), ("p", "p", I), ("pc", "p", C), ("dy", "v", I),
 ]
 
 
@@ -760,6 +783,9 @@ def gen_decls(rng):
             if r < 0.35:
                 cp = rng.choice(["r", "s", "d", "-"])
         dv = default_tok(sh) if kind != "r" else "u"
+        if name == "dy":
+            dv = "q"
+            cp = "-"
         if kind == "v" and sh == I and rng.random() < 0.3:
             dv = "i 3"
         if kind == "v" and sh[0] == "L" and sh[3] == I and sh[1] == 0 and rng.random() < 0.3:
